@@ -32,8 +32,15 @@ void registerNet(std::map<std::string, Op>& ops)
                 Address b(printed); std::string p2;
                 if (addrFields(b, p2) == f) rp = "1";
             } catch (const std::exception&) { rp = "0"; }
+            // the const char* constructor is a second entry into the same parser: it must agree (texts without NUL only)
+            if (in.find('\0') == std::string::npos) {
+                try { Address c(in.c_str()); std::string p3; if (addrFields(c, p3) != f) return "ok " + f + " print=" + toHex(printed) + " rp=" + rp + " cstr-differs"; }
+                catch (const std::exception&) { return "ok " + f + " print=" + toHex(printed) + " rp=" + rp + " cstr-throws"; }
+            }
             return "ok " + f + " print=" + toHex(printed) + " rp=" + rp;
-        } catch (const std::exception& e) { return "err " + excClass(e).substr(4); }
+        } catch (const std::exception& e) {
+            if (in.find('\0') == std::string::npos) { bool threw = false; try { Address c(in.c_str()); } catch (const std::exception&) { threw = true; } if (!threw) return "err " + excClass(e).substr(4) + " cstr-accepts"; }
+            return "err " + excClass(e).substr(4); }
     };
     // addrhp <hexhost> <port>: the (host, Port) constructor
     ops["addrhp"] = [](const std::vector<std::string>& w) -> std::string {
@@ -47,7 +54,8 @@ void registerNet(std::map<std::string, Op>& ops)
                 if (addrFields(b, p2) == f) rp = "1";
             } catch (const std::exception&) { rp = "0"; }
             return "ok " + f + " print=" + toHex(printed) + " rp=" + rp;
-        } catch (const std::exception& e) { return "err " + excClass(e).substr(4); }
+        } catch (const std::exception& e) {
+            return "err " + excClass(e).substr(4); }
     };
     ops["addrp"] = [](const std::vector<std::string>& w) -> std::string {
         std::string in; if (w.size() != 2 || !fromHex(w[1], in)) return "bad-op";
